@@ -676,6 +676,11 @@ func (m *Model) Interest(idx int, op Op, wire []byte, em []Emission) *Violation 
 		if len(datas) == 0 {
 			return nil, false
 		}
+		for _, d := range datas {
+			if g, ok := m.face(d.Face); ok && isLocalhost(d.Name) && !g.Local {
+				return viol("C09", "Interest #%d %s from face %d: cached Data %s sent to non-local face %d", idx, op.N, op.F, d.Name, d.Face), true
+			}
+		}
 		if len(datas) > 1 || datas[0].Face != op.F {
 			return viol("C01", "Interest #%d %s from face %d caused Data emissions %s; a cache answer goes to the requesting face alone", idx, op.N, op.F, emString(datas)), true
 		}
